@@ -434,7 +434,9 @@ void vyukov_hash_map<Key, Value, Policies...>::erase(iterator& pos) {
     // the item we are currently looking at is an extension item
     auto next = pos.extension->next.load(std::memory_order_relaxed);
     pos.prev->store(next, std::memory_order_relaxed);
-    auto new_state = pos.current_bucket_state.locked().new_version();
+    // the new version must also be the one that gets written back when the bucket is unlocked
+    pos.current_bucket_state = pos.current_bucket_state.new_version();
+    auto new_state = pos.current_bucket_state.locked();
     // (15) - this release-store synchronizes-with the acquire-load (23)
     pos.current_bucket->state.store(new_state, std::memory_order_release);
 
@@ -473,8 +475,11 @@ void vyukov_hash_map<Key, Value, Policies...>::erase(iterator& pos) {
 
     // increase the version but keep the lock
     // (19) - this release-store synchronizes-with the acquire-load (23)
-    pos.current_bucket->state.store(locked_state.new_version(), std::memory_order_release);
+    locked_state = locked_state.new_version();
+    pos.current_bucket->state.store(locked_state, std::memory_order_release);
     assert(pos.current_bucket->state.load().is_locked());
+    // the new version must also be the one that gets written back when the bucket is unlocked
+    pos.current_bucket_state = locked_state.clear_lock();
     free_extension_item(extension);
   } else {
     auto max_index = pos.current_bucket_state.item_count() - 1;
